@@ -85,7 +85,7 @@ impl Monitor for PdMon {
                     if let Ok(m) = rc::decode(data) {
                         if matches!(m.body, Body::PdelayReq { .. }) {
                             let v: u128 = bits.parse().unwrap();
-                            if let Some(e) = st.reqs.iter_mut().find(|(s, _)| *s == m.hdr.seq) {
+                            if let Some(e) = st.reqs.iter_mut().rev().find(|(s, _)| *s == m.hdr.seq) {
                                 e.1 = Some(v as i128);
                             }
                         }
@@ -97,16 +97,33 @@ impl Monitor for PdMon {
     }
 
     fn post(&self, st: &mut PdSt, _run: &mut Run<'_>, s: &Step, report: Option<&mut Vec<Violation>>) {
+        let mut local = vec![];
         for (_, acts) in &s.acts {
             for a in acts {
                 if let Some(Ok(m)) = &a.decoded {
                     if matches!(m.body, Body::PdelayReq { .. }) && a.kind == "SendEvent" {
+                        // matching by sequence id presupposes that consecutive requests differ
+                        if let Some((prev, _)) = st.reqs.last() {
+                            if m.hdr.seq != prev.wrapping_add(1) {
+                                local.push(Violation {
+                                    signature: "pdelay-request-ids-not-consecutive".into(),
+                                    message: format!("Pdelay_Req with sequence id {} follows one with id {}: a late or duplicated response to the earlier request would be taken for the later one", m.hdr.seq, prev),
+                                    replay: json!(null),
+                                });
+                            }
+                        }
                         st.reqs.push((m.hdr.seq, None));
+                        if st.reqs.len() > 8 {
+                            st.reqs.remove(0);
+                            // (responses and follow-ups of forgotten requests go with them)
+                            let keep: Vec<u16> = st.reqs.iter().map(|r| r.0).collect();
+                            st.resps.retain(|r| keep.contains(&r.0));
+                            st.fups.retain(|f| keep.contains(&f.0));
+                        }
                     }
                 }
             }
         }
-        let mut local = vec![];
         let p = 0usize;
         let before = s.before[p];
         let after = s.after[p];
@@ -328,12 +345,33 @@ pub fn run(tier: Tier) -> i32 {
     let depths: std::collections::HashMap<String, (usize, usize)> = built.iter().map(|(s, d)| (s.name.clone(), *d)).collect();
     let systems: Vec<_> = built.into_iter().map(|(s, _)| s).collect();
     explore_all(&mut rep, &systems, |s| tier.pick(depths[&s.name].0, depths[&s.name].1), tier.pick(12.0, 400.0));
+    // the port's own Pdelay_Req ids across the 65535 -> 0 wrap: 65536 requests with their transmit
+    // timestamps, then one more exchange answered by a single one-step responder
+    {
+        let sys = systems.iter().find(|s| s.name == "p2p-listening").expect("harness: world");
+        let mut h: Vec<Ev> = vec![];
+        for _ in 0..65_537u32 {
+            h.push(Ev::T(0, Timer::Delay));
+            h.push(Ev::TxTsAt(0, (((tag_ns(0) as u128) << 32) | 0x4000_0001).to_string()));
+        }
+        let mut v = sys.run_all_judged(&h).violations;
+        for x in &mut v {
+            x.message = format!("{} [in a history of 65537 Pdelay_Req]", x.message.chars().take(500).collect::<String>());
+            x.replay = json!({"kind": "wrap"});
+        }
+        rep.violations(v);
+        rep.cover("pdelay_req_id_wrap_history", json!(65_537));
+    }
     rep.assume("a second responder's frame that arrives only after the next request went out is not required to raise the fault (the port can no longer match it); it must then simply not be used");
     rep.assume("timestamps/corrections are tagged; one-step responders carry the turnaround in the correction field, so link delay = (t4 - corr - t1)/2");
     rep.finish()
 }
 
 pub fn replay(r: &serde_json::Value) {
+    if r["kind"] == "wrap" {
+        println!("wrap case {r}: rerun ./check C14 quick (65537 delay timers; the case is re-derived)");
+        return;
+    }
     let systems: Vec<_> = systems(Tier::Thorough).into_iter().map(|(s, _)| s).collect();
     replay_world(&systems, r);
 }
